@@ -1,5 +1,29 @@
-"""C05 — engine `app` (see appcommon.py / apporacles.py and coq/Props/C05.v)."""
+"""C05 — engine `app` (see appcommon.py / apporacles.py and coq/Props/C05.v), plus the guard in front of InitChain: a genesis
+file that lists one validator key twice must be refused by the pos module's genesis validation (started from it, InitChain
+returns that key twice in one batch)."""
+import os
 import appcommon, apporacles
 
+
+def genesis_guard(v, out, hists, cov, a=None, res=None):
+    n = bad = 0
+    path = os.path.join(out, "app.gv")
+    for l in open(path) if os.path.exists(path) else []:
+        n += 1
+        f = l.rstrip("\n").split(" ")
+        if f[4].startswith("refused"):
+            continue
+        if f[4] == "control-refused":
+            v.broken_obligation("the genesis-validation control (the same file without the repeated entry) is refused", l.strip())
+            continue
+        bad += 1
+        if bad == 1:
+            v.violation({"engine": "app", "kind": "genesis-with-a-duplicate-key-accepted"},
+                        "genesis validation accepts a validator list that repeats a key (entry %s %s): %s"
+                        % (f[2].split("=")[1], f[3], " ".join(f[4:])[:300]), {"history": f[0], "line": l.strip()})
+    cov["genesis_files_with_a_repeated_key_offered"] = n
+    cov["genesis_files_with_a_repeated_key_accepted"] = bad
+
+
 def run(a):
-    return appcommon.run(a, "C05", set("IP"), apporacles.c05, "validator updates / Tendermint set wrong")
+    return appcommon.run(a, "C05", set("IP"), apporacles.c05, "validator updates / Tendermint set wrong", extra=genesis_guard)
